@@ -18,6 +18,10 @@ claimed = {
  "C03": ("Lock layer: the real AcquireLock/ReleaseLock/handleSessionEvent of two zkDCS instances over one fake ZooKeeper, one process's operations interleaved at every ZooKeeper request with session expiry, new sessions, delivery of session events, whole operations of the other process and TTL expiry (3/4 environment actions, 2/3 operations): never true after a delivered session loss unless the znode is owned, release never removes a foreign lock (checked when the delete is applied). Daemon layer: no remote-mutating statement or protected coordination write without a lock confirmation in the same iteration, for every state handler and every pattern of lock answers. Lease-window, version-0 release race and post-refusal FailSwitchover are known findings.", "§7 C03"),
  "C04": ("One call of the real updateActiveNodes (with calcActiveNodes, calcActiveNodesChanges, semi-sync adjustments, eviction guard, SetActiveNodes) from an arbitrary membership/health situation of a master + 2 replicas (10 replica classes x semi-sync flag x old-list membership x master semi-sync state x both adjust orders), with (a)/(b) asserted as checkpoint invariants after every mutating statement or coordination write (crash at any point) and with one failing/lost-reply call; list content rules on every published value; SetRecovery delists before it marks. Known findings listed in KNOWN_FINDINGS.json are reported as such.", "§7 C04"),
  "C15": ("One operation of the real zkDCS data plane (create/set/get/delete/children incl. makePath, retry and path normalisation) from an arbitrary tree over 4 keys x 4 node kinds x 6 slash spellings against a fake ZooKeeper as reference tree, znode versions symbolic (solver-decided), plus buildFullPath over all byte strings up to length 7/10, retry-only-while-connected with 1/2 lost requests, and ephemeral lifetime across sessions. Mostly structural decisions (exhaustive re-execution), the solver decides the version arithmetic.", "§7 C15"),
+ "C05": ("One full iteration of the real stateManager (failure detection, gating order, approveFailover, IssueFailover, suspicious-master guard; heavy callees that are other properties' subjects stubbed) over arbitrary manager views, coordination pre-states (maintenance, pending request, last switch with symbolic finish time and cause, published list, health records) and an arbitrary first-seen-failed timer under its inductive invariant: a filed automatic request implies every gate of the statement (one assertion id per gate), has the right shape and was created if-absent; suspicious master => no action; timer invariant preserved; plus approveFailover alone over the replica-state x list product with a cascade replica, manager_switchover on, and one failing coordination read.", "§7 C05"),
+ "C09": ("One step of every state handler and of the recovery checker under acknowledged full maintenance (coordination service up, down or failing): no mutating statement, no write to master/active list; light mode never starts or files a failover while planned requests and repairs proceed; leaving succeeds only with exactly one alive master, which becomes the recorded master with a non-empty rebuilt list, several masters raise the emerge file; the acknowledgement is written last on entering. The Candidate/no-marker-file outage case is a known finding.", "§7 C09"),
+ "C11": ("One checkRecovery step from arbitrary local role, replication state, GTID relation (6/9 bits), read-only flag, stuck commits and timers: the mark is cleared only for a read-only replica without replication error whose set is contained in the master's, otherwise the resetup file is written and the mark stays; SetRecovery delists before it marks at every crash point; calcActiveNodes and every published list exclude marked non-masters; stale masters are taken offline and marked (mark before re-point); a marked offline master stays offline; performSwitchover leaves the old master clean or marked and never promotes a marked host; ClearRecovery's only caller is checkRecovery (SSA call graph).", "§7 C11"),
+ "C19": ("The real Syncer.Sync and Controller (Enable/Disable/DisableAll/Wait) with the real DCS adapter and *mysql.Node over the fake fleet: after a fault-free sync at most one host is left relaxed, hosts without lag or converged are restored then deregistered, deregistration only after a successful restore or for non-cluster hosts (also with 1 failing call); switchover link: no candidate registered or relaxed at the first freeze statement and at promotion, incl. the turbo phase. The latent Wait deregistration is a known finding.", "§7 C19"),
  "C06": ("One manager iteration of the real stateManager request branch (approve/start/perform/fail-or-finish with the real appDCS bookkeeping) from an arbitrary pending request with symbolic run_count, attempt limit, timeout, initiation time and clock; the same iteration interleaved with the operator's abort and the real initiators (CliSwitch, IssueFailover) at every manager write to `switch`; two initiators racing; and the iteration with the whole real performSwitchover (success record implies recorded master = promoted node and writable). Abort/initiator races that the missing compare-and-set makes possible are listed as known findings.", "§7 C06"),
  "C08": ("One iteration of the real stateLost (with checkHAReplicasRunning, getLocalNodeState, the real Node.SetReadOnly/setReadonlyWithTimeout) over every row of the statement's decision table: topology (single node, non-HA, 2..3/4 HA hosts), local role, per-replica probe outcome (streaming, stopped, wrong source, not semi-sync, refusing, hanging), every outcome of SET read_only incl. stuck commits, loss timer and elapsed time symbolic. The local-status-query failure case is a known finding.", "§7 C08"),
  "C10": ("One manager pass of the real repair functions over a grid of replica states (read-only x role x 4-8 thread/error classes x semi-sync), master states, repair histories with symbolic counters/limits/cooldown clock, decoy hosts, and 1 (2) failing or lost-reply calls: safety ids on every path (master key untouched, only registered hosts, never self, reset gated by aggressive mode/attempt limit/cooldown) and the fixpoint characterisation (no statement issued implies canonical state; every statement corrective).", "§7 C10"),
